@@ -34,7 +34,7 @@ def nontrivial(rec):
 
 
 def run_corpus(tier: str, seed: int, prefixes: tuple[str, ...], jit: bool = False, boundscheck: bool = False,
-               families=None, nrandom=None):
+               families=None, nrandom=None, nbig=0):
     """Returns dict(records, judged, failures=[(rec, clause)], nontrivial, samples, states, transitions, per_alg)."""
     rate = plan(tier)
     fams = list(families if families is not None else scope.FAMILIES)
@@ -59,6 +59,7 @@ def run_corpus(tier: str, seed: int, prefixes: tuple[str, ...], jit: bool = Fals
         for bi, b in enumerate(batches):
             jobs = [{"families": b, "offset": k, "stride": NCPU, "rate": rate, "seed": seed,
                      "random": (nrandom // NCPU + 1) if bi == 0 and nrandom else 0,
+                     "big": (nbig // NCPU + 1) if bi == 0 and nbig else 0,
                      "idbase": (bi * NCPU + k) * 10_000_000} for k in range(NCPU)]
             outs = run_workers("rec_calls.py", jobs, env, tmp, timeout=3000)
             recs = list(read_ndjson(outs))
